@@ -27,8 +27,9 @@ package utils
 //@   at ACLValidator.Validate assert node_evaluated_on_itself: $0 == pnode
 //@   at ACLValidatorFactory.GetACLValidator assert validator_of_node_rule: $0 == pnode.ACL.Pm.Rule
 //@   at fieldwrite.Status assert status_is_verdict: $0 == pnode && ($1 == 2 || $1 == 3) && (($1 == 2) == checkResult)
-// Only the key a signer uri ends in has signed: an address node passes only as a leaf.
-//@   at fieldwrite.Status assert address_passes_only_as_the_signing_key: IsAccount(pnode.Name) == 0 && !(i == 0 && !isAccount) && $1 == 2 ==> len(pnode.Children) == 0
+// Only the key a signer uri ends in has signed: an address node passes exactly if some uri
+// ends in it (recorded by the tree builder), whatever hangs below it.
+//@   at fieldwrite.Status assert address_passes_only_as_the_signing_key: IsAccount(pnode.Name) == 0 && !(i == 0 && !isAccount) && $1 == 2 ==> pnode.EndsURI
 //@   ensures root_verdict: result1 == nil ==> result0 == (root.Status == 2)
 
 // Functions of their arguments (and of the unchanging ACL state during one verification).
